@@ -330,29 +330,32 @@ def storeGround (p : Pred) : Results → List ((Pred × List Const) × Key) → 
   | [], t => t
   | (ans, k) :: r, t => storeGround p r (assocSet' t (p, ans) k)
 
+/-- a goal that is not in the table; `gc` = its arguments if it is ground -/
+def evalFresh (P : Prog) (sched : Sched) (ev : Eval) (g : Goal) (st : St) (gc : Option (List Const)) :
+    Except Err (Results × St) :=
+  let cs := (P.clausesOf g.pred).filter (headMatches g.args)
+  if cs.isEmpty then pure ([], st)                                   -- complete at once, nothing tabled
+  else do
+    let (buf, st1) ← evalClauses P ev g (permute (sched g) cs) ([], st)
+    let (rs, S2) ← flush buf st1.store
+    let tab := st1.table
+    let tab' : Table := match gc with
+      | some consts =>
+        if rs.isEmpty then { tab with ground := assocSet' tab.ground (g.pred, consts) FALSE }
+        else { tab with ground := storeGround g.pred rs tab.ground }     -- flushBuffer per result, then complete
+      | none => { ground := storeGround g.pred rs tab.ground, ng := assocSet' tab.ng g rs }
+    pure (rs, { table := tab', store := S2 })
+
 def evalGoalWith (P : Prog) (sched : Sched) (ev : Eval) (g : Goal) (st : St) : Except Err (Results × St) :=
-  let fresh : Option (List Const) → Except Err (Results × St) := fun gc =>
-    let cs := (P.clausesOf g.pred).filter (headMatches g.args)
-    if cs.isEmpty then pure ([], st)                                   -- complete at once, nothing tabled
-    else do
-      let (buf, st1) ← evalClauses P ev g (permute (sched g) cs) ([], st)
-      let (rs, S2) ← flush buf st1.store
-      let tab := st1.table
-      let tab' : Table := match gc with
-        | some consts =>
-          if rs.isEmpty then { tab with ground := assocSet' tab.ground (g.pred, consts) FALSE }
-          else { tab with ground := storeGround g.pred rs tab.ground }     -- flushBuffer per result, then complete
-        | none => { ground := storeGround g.pred rs tab.ground, ng := assocSet' tab.ng g rs }
-      pure (rs, { table := tab', store := S2 })
   match allConsts g.args with
   | some consts =>
     match lookup st.table.ground (g.pred, consts) with
     | some k => pure ([(consts, k)], st)
-    | none => fresh (some consts)
+    | none => evalFresh P sched ev g st (some consts)
   | none =>
     match lookup st.table.ng g with
     | some rs => pure (rs, st)
-    | none => fresh none
+    | none => evalFresh P sched ev g st none
 
 def evalGoal (P : Prog) (sched : Sched) : Nat → Eval
   | 0 => fun _ _ => .error .fuel
